@@ -54,7 +54,9 @@ func c07WriterTable(c *Ctx) map[string]string {
 		return tab
 	}
 	info := pv.Pkg.TypesInfo
-	sws := findSwitches(pv.Decl.Body, func(s *ast.SwitchStmt) bool { return s.Tag != nil && typeQName(info.TypeOf(s.Tag)) == "internal/comments.Type" })
+	sws := findSwitches(pv.Decl.Body, func(s *ast.SwitchStmt) bool {
+		return s.Tag != nil && typeQName(info.TypeOf(s.Tag)) == "internal/comments.Type"
+	})
 	if len(sws) != 1 {
 		c.Undecided("C07-R1", "parseValue:switch", pv.Decl.Pos(), "expected one switch over the comment type")
 		return tab
